@@ -14,8 +14,15 @@ the strings chibicc builds (`format("%s/%s", dir, name)`), compared as strings l
 `runInc` is `preprocess2` over lines *with* #include: an included file's lines are spliced in front
 of the rest of the input (`append(tok2, tok)`), so an included file shares the `cond_incl` stack
 with its includer, exactly like the C code.  It is structurally recursive on a step budget; running
-out of budget is the explicit outcome `outOfFuel` (chibicc has no include-depth limit: an include
-cycle without guards does not terminate).
+out of budget is the explicit outcome `outOfFuel`.
+
+NOTE (commit b453bf4 of /repo): `include_file` now refuses an #include at nesting depth 200.  The
+machine WITH that limit – and with the third operand form `#include MACRO` – is
+Model/IncludeDepth.lean (`runIncD`, the total `runAt` / `includeRun`); it reuses the search
+functions, tables and `IState` defined here.  `includeFile`, `stepInc`, `runInc`, `cmdStream` and
+`runMain` below are the code BEFORE that commit (no nesting limit: an include cycle without guards
+exhausts every budget); they are kept unchanged because Findings/C10.lean and property C13 state the
+pre-fix behaviour on them.  The driver and Props/C10.lean use Model/IncludeDepth.lean.
 
 Core Lean only.
 -/
